@@ -26,6 +26,7 @@ def ser_impls(names):
         /// carry" is an obligation instead of a type error
         open spec fn tid() -> int {{ {k} }}
         uninterp spec fn zd_ok(b: Seq<u8>, v: Self) -> bool;
+        uninterp spec fn zd_defined(b: Seq<u8>) -> bool;
         #[verifier::external_body]
         fn zvt_deserialize(bytes: &[u8]) -> (r: zvt_builder::ZVTResult<(Self, &[u8])>) {{ unimplemented!() }}
     }}""")
@@ -53,11 +54,12 @@ for m,enums in bymod.items():
         def tyref(ty):
             # how the type is named from inside module m
             return 'crate::packets::'+ty.split('::')[-1]
-        arms=[]; known=[]
+        arms=[]; known=[]; defined=[]
         for v,ty in e['variants']:
             c,i=P[ty]
             arms.append(f"                Self::{v}(x) => b.len() >= 2 && b[0] == {c} && b[1] == {i} && zvt_builder::tid_of(x) == {allp.index(ty)} /* {ty} */ && zvt_builder::zd_ok_of(b, x),")
             known.append(f"(c == {c} && i == {i})")
+            defined.append(f"(b[0] == {c} && b[1] == {i} && <{tyref(ty)} as zvt_builder::ZvtSerializer>::zd_defined(b))")
         o.append(f"""    // ------------------------------------------------------------------ {name}
     //@ item {srcfile[m]} | enum {name}
     impl zvt_builder::ZvtParser for {name} {{
@@ -72,6 +74,8 @@ for m,enums in bymod.items():
         }}
         /// the command's reply set
         open spec fn ctrl_known(c: u8, i: u8) -> bool {{ {' || '.join(known)} }}
+        /// a packet of the reply set that its own packet type decodes is accepted
+        open spec fn parse_defined(b: Seq<u8>) -> bool {{ b.len() >= 2 && ({' || '.join(defined)}) }}
         //@ fn exp:zvt | impl zvt_builder::ZvtParser for {name} | zvt_parse | mod={m} props=C15,C02
         //@ end
     }}""")
